@@ -429,44 +429,27 @@ pub fn register_tags_in(context: &mut FormatContext) {
             })
         );
 
-        // Request summarizer - formats requests with request() notation
-        let cloned_context = context.clone();
-        context.tags_mut().set_summarizer(
-            TAG_REQUEST,
-            Arc::new(move |untagged_cbor: CBOR| {
-                Ok(
-                    Envelope::new(untagged_cbor)
-                        .format_opt(Some(&cloned_context))
-                        .flanked_by("request(", ")")
-                )
-            })
-        );
-
-        // Response summarizer - formats responses with response() notation
-        let cloned_context = context.clone();
-        context.tags_mut().set_summarizer(
-            TAG_RESPONSE,
-            Arc::new(move |untagged_cbor: CBOR| {
-                Ok(
-                    Envelope::new(untagged_cbor)
-                        .format_opt(Some(&cloned_context))
-                        .flanked_by("response(", ")")
-                )
-            })
-        );
-
-        // Event summarizer - formats events with event() notation
-        let cloned_context = context.clone();
-        context.tags_mut().set_summarizer(
-            TAG_EVENT,
-            Arc::new(move |untagged_cbor: CBOR| {
-                Ok(
-                    Envelope::new(untagged_cbor)
-                        .format_opt(Some(&cloned_context))
-                        .flanked_by("event(", ")")
-                )
-            })
-        );
+        // Request, response and event summarizers - format the tagged content
+        // as an envelope of its own, flanked by request(), response() or
+        // event(). They share one snapshot of this context, completed after
+        // all of them are installed, so that such content nested in one
+        // another is annotated at every depth, and in the same way however
+        // often the tags have been registered.
+        let nested_context: Arc<std::sync::OnceLock<FormatContext>> = Arc::new(std::sync::OnceLock::new());
+        for (tag, opening) in [(TAG_REQUEST, "request("), (TAG_RESPONSE, "response("), (TAG_EVENT, "event(")] {
+            let nested_context = nested_context.clone();
+            context.tags_mut().set_summarizer(
+                tag,
+                Arc::new(move |untagged_cbor: CBOR| {
+                    Ok(
+                        Envelope::new(untagged_cbor)
+                            .format_opt(nested_context.get())
+                            .flanked_by(opening, ")")
+                    )
+                })
+            );
+        }
+        let _ = nested_context.set(context.clone());
     }
 }
 
